@@ -1,7 +1,7 @@
 (* C07/Properties.v — property theorems only.  Model: C07/Model.v (the code after fix commits
    e89b171, 07b228c; with the known finding F-C07a, whose fix 311264d was reverted by 0819a3f). *)
 From Coq Require Import String Lia.
-From RM Require Import C06.Model C06.Proofs C06.Proofs5 C06.Driver C07.Model C07.Proofs C07.Proofs2 C07.Proofs3 C07.Proofs4 C07.Text C07.Proofs5 C07.Walker C07.Proofs6 C07.Proofs7 C07.Proofs11 C07.Proofs13 C07.Proofs8 C07.Proofs9 C07.Proofs10 C07.Proofs12.
+From RM Require Import C06.Model C06.Proofs C06.Proofs5 C06.Driver C07.Model C07.Proofs C07.Proofs2 C07.Proofs3 C07.Proofs4 C07.Text C07.Proofs5 C07.Walker C07.Proofs6 C07.Proofs7 C07.Proofs11 C07.Proofs13 C07.Proofs8 C07.Proofs9 C07.Proofs10 C07.Proofs12 Gen.C07WinEval C07.Source C07.Proofs14 C07.Proofs15.
 From RM Require C09.Grammar.
 From RM Require C08.Model C08.Proofs.
 Open Scope Z_scope.
@@ -470,3 +470,95 @@ Proof.
   cbn [fpo_layout_bp]. repeat split; try reflexivity; try (intro Hc; discriminate Hc); try (vm_compute; intro Hc; discriminate Hc);
     try (vm_compute; reflexivity); try (intros _ Hc; discriminate Hc).
 Qed.
+
+(* ---- round 5: the evaluator itself is COMPILED from the Rust source.  translate/c07_win_eval.py parses walker.rs
+   (win_frame_size, clear_stack_win_caller_registers, eval_win_expr: the prologue with its `?`s, the `@` rule and the
+   predefined constants, every arm of `match token`, the output register list; walk_with_stack_win_fpo statement by
+   statement) into Gen/C07WinEval.v on every run and pins the glue (tokenizer closure, output loop,
+   walk_with_stack_win_framedata, SymbolFile::walk_frame's framedata > fpo > STACK CFI order); C07/Source.v assembles
+   the compiled pieces along that glue.  An edit to a formula, a guard, an operator, a constant's name or value, the
+   order of the `?`s, a register list ... changes the Gallina below, and these theorems are re-checked against it. ---- *)
+
+(* the compiled source IS the hand-written model all other theorems of this file are about: every function, all arguments *)
+Theorem c07_source_is_model :
+  (forall i g, g_win_frame_size i g = win_frame_size i g) /\
+  g_clear_names = win_clear_names /\ g_win_outputs = win_outputs /\
+  (forall E i e, g_win_initial_vars E i e = win_initial_vars E i e) /\
+  (forall p E t ms, g_win_step p E t ms = win_step p E t ms) /\
+  (forall S (ops : wops S) E i abp s, g_walk_win_fpo ops E i abp s = walk_win_fpo ops E i abp s) /\
+  (forall S (ops : wops S) p E i e s, src_walk_win_framedata ops p E i e s = walk_win_framedata ops p E i e s) /\
+  (forall S (ops : wops S) p E f s, src_walk_frame ops p E f s = walk_frame ops p E f s).
+Proof. exact source_is_model. Qed.
+Print Assumptions c07_source_is_model.
+
+(* c07_refines_spec for the compiled evaluator: every program text, profile, environment, size fields within u32 *)
+Theorem c07_src_refines_spec :
+  forall p E i e,
+    info_u32 i -> u32 (e_gcps E) ->
+    match src_win_final_vars p E i e, win_spec E i e with
+    | Ret (Some m), Some f => forall k, vget k m = f k
+    | Ret None, None => True
+    | _, _ => False
+    end.
+Proof. exact src_refines_spec. Qed.
+Print Assumptions c07_src_refines_spec.
+
+(* exactly the six outputs the program defined reach the (mock) walker, under the names without the `$`;
+   the names cleared first are the ones the source passes *)
+Theorem c07_src_mock_exact :
+  forall p E i e s' m,
+    src_walk_win_framedata (mock_ops 4) p E i e m_init = Ret (s', true) ->
+    src_win_final_vars p E i e = Ret (Some m) ->
+    forall n, m_regs s' n = (if mem_b n six then
+                               match vget (dollar n) m with Some v => SetTo v | None => Unset end
+                             else if mem_b n g_clear_names then Cleared else Unset).
+Proof. exact src_mock_exact. Qed.
+Print Assumptions c07_src_mock_exact.
+
+(* the FPO formulae (frame size = locals + saved + grand-callee parameters, the one-word leftover-return-address skip
+   for the context frame only, the saved-ebp slot, the ebx pass-through) of the compiled walk_with_stack_win_fpo *)
+Theorem c07_src_fpo_formulae :
+  forall E i abp s',
+    g_walk_win_fpo (mock_ops 4) E i abp m_init = (s', true) ->
+    exists fs esp a eip,
+      g_win_frame_size i (e_gcps E) = Some fs /\ fs = w_locals i + w_saved i + e_gcps E /\ e_callee E N_esp = Some esp /\
+      (a = esp + fs \/
+       (a = esp + fs + 4 /\ e_has_gc E = false /\ e_mem E (esp + fs) = e_callee E N_eip)) /\
+      (a = esp + fs -> e_has_gc E = false -> e_mem E (esp + fs) <> e_callee E N_eip) /\
+      e_mem E a = Some eip /\
+      m_regs s' N_eip = SetTo eip /\ m_regs s' N_esp = SetTo (a + 4) /\
+      (if abp then exists v, e_mem E (esp + e_gcps E + w_saved i - 8) = Some v /\ m_regs s' N_ebp = SetTo v /\
+                             m_regs s' N_ebx = Unset
+       else exists v, e_callee E N_ebp = Some v /\ m_regs s' N_ebp = SetTo v /\
+                      m_regs s' N_ebx = match e_callee E N_ebx with Some b => SetTo b | None => Unset end).
+Proof. exact src_fpo_formulae. Qed.
+Print Assumptions c07_src_fpo_formulae.
+
+(* no reachable panic in the compiled walk_frame: a dropped `rhs == 0` guard (g_div / g_rem), an unchecked `+`, the
+   `rhs - 1` of `@` ... would leave a Panic the proof cannot discharge *)
+Theorem c07_src_walk_frame_total :
+  forall (S : Type) (ops : wops S) (p : profile) (E : env) (f : symfile) (s : S),
+    Forall win_wf (sf_framedata f) -> Forall win_wf (sf_fpo f) ->
+    Forall is_framedata (sf_framedata f) -> Forall is_fpo (sf_fpo f) ->
+    exists r : option S, src_walk_frame ops p E f s = Ret r.
+Proof. exact src_walk_frame_total. Qed.
+Print Assumptions c07_src_walk_frame_total.
+
+Example c07_nonvacuous_src_doc_example :
+  (* the worked example of the module docs through the compiled evaluator; and an FPO record with the
+     leftover-return-address skip (context frame, slot holds the callee's own eip 77) *)
+  let E := mkEnv (fun n => assoc n [(N_esp, 1600); (N_ebp, 16)])
+                 (mem_read 4 0 [0;0;0;0; 0;0;0;0; 0;0;0;0; 0;0;0;0; 12;0;0;0; 2;0;0;0]) 100 true 0 in
+  let e := bs "$T0 $ebp = $eip $T0 4 + ^ = $ebp $T0 ^ = $esp $T0 8 + =" in
+  let f := mkSym [mkWin 100 16 0 0 0 0 0 0 (ProgramString e)] [] None in
+  let E2 := mkEnv (fun n => assoc n [(N_esp, 8); (N_ebp, 55); (N_eip, 77)])
+                  (mem_read 4 0 [0;0;0;0; 0;0;0;0; 0;0;0;0; 77;0;0;0; 9;16;0;0; 2;0;0;0]) 100 false 0 in
+  match src_walk_frame (mock_ops 4) Debug E f m_init with
+  | Ret (Some s) => m_regs s N_ebp = SetTo 12 /\ m_regs s N_esp = SetTo 24 /\ m_regs s N_eip = SetTo 2
+  | _ => False
+  end /\
+  match g_walk_win_fpo (mock_ops 4) E2 (mkWin 100 16 0 0 0 0 4 0 (AllocatesBasePointer false)) false m_init with
+  | (s, true) => m_regs s N_eip = SetTo 4105 /\ m_regs s N_esp = SetTo 20 /\ m_regs s N_ebp = SetTo 55
+  | _ => False
+  end.
+Proof. vm_compute. repeat split; reflexivity. Qed.
